@@ -170,6 +170,28 @@ def apply_rules(text, rules):
             if k < r.get("min", 0):
                 raise ExtractionDrift("must-fire rule %r fired %d < %d times" % (r["name"], k, r["min"]))
             continue
+        if "block_body" in r:
+            # keep the header matched by the regex (it ends with the opening brace) and replace the CONTENT of its balanced block:
+            # used to abstract a long computation by a ghost effect while the guarding condition stays the extracted text
+            k = 0
+            pos = 0
+            while True:
+                m = re.compile(r["block_body"], re.S).search(text, pos)
+                if not m:
+                    break
+                i = m.end() - 1
+                if text[i] != "{":
+                    raise ExtractionDrift("rule %r: header does not end with '{'" % r["name"])
+                j = balanced(text, i)
+                text = text[:i + 1] + " " + r["body"] + " " + text[j - 1:]
+                pos = i + 1 + len(r["body"]) + 2
+                k += 1
+                if k >= r.get("max", 1):
+                    break
+            fired.append((r["name"], k))
+            if k < r.get("min", 0):
+                raise ExtractionDrift("must-fire rule %r fired %d < %d times" % (r["name"], k, r["min"]))
+            continue
         if "wrap_calls" in r:
             # wrap every call `<callee matching the regex>(balanced args)` as fmt % call  (exception model: CALLX)
             out, pos, k = [], 0, 0
